@@ -219,7 +219,9 @@ Definition last_index (p : prog) : nat := List.length (p_bodies p) - 1.
 
 Definition the_failure (p : prog) : option failure :=
   if Nat.eqb (p_fail p) OVERFLOW then
-    Some (mkFailure [] (call_stmt (last_index p) (b_kind (nth_body p (last_index p)))) overflow_thrown false None)
+    (* the failing body calls itself (a fiber body: the lambda it runs, inside the same fiber) *)
+    let k := match b_kind (nth_body p (last_index p)) with KFiber => KLambda | k => k end in
+    Some (mkFailure [] (call_stmt (last_index p) k) overflow_thrown false None)
   else failure_of (p_fail p) (p_arg p).
 
 Definition wrap_of (p : prog) (f : failure) (j : nat) : wrap :=
@@ -314,7 +316,8 @@ Definition valid_prog (p : prog) : bool :=
     && Nat.leb (List.length rest) 5
     && match the_failure p with None => false | Some _ => true end
     && negb (Nat.eqb (p_fail p) 9 && has_kind p (fun k => match k with KFiber => true | _ => false end) 0 n)
-    && negb ((uses_native (p_fail p) || (Nat.eqb (p_fail p) 22 && uses_native (p_arg p)))
+    && negb ((uses_native (p_fail p) || (Nat.eqb (p_fail p) 22 && uses_native (p_arg p))
+              || Nat.eqb (p_fail p) 23 || Nat.eqb (p_fail p) 24)   (* natives and error classes live in "main" only *)
              && has_kind p (fun k => match k with KScript => true | _ => false end) 1 n)
     && negb (Nat.eqb (p_fail p) 22 && (Nat.eqb (p_arg p) 9)
              && has_kind p (fun k => match k with KFiber => true | _ => false end) 0 n)
@@ -418,7 +421,7 @@ Definition eval_spec (p : prog) : string :=
       let fins := filter (fun j => match wrap_of p f j with WFinally => true | _ => false end)
                          (rev (down_from n base)) in
       let top := match fins with j :: _ => j | [] => n end in
-      let copies := if Nat.eqb (p_fail p) OVERFLOW then FRAMES_MAX_nat - (n - base) - 1 else 0 in
+      let copies := if Nat.eqb (p_fail p) OVERFLOW && Nat.eqb top n then FRAMES_MAX_nat - (n - base) - 1 else 0 in
       let tr := repeat (spec_entry_of p f n) copies +++ map (spec_entry_of p f) (down_from top base) in
       show_result kind (fin_prints p f (down_from n base)) (uncaught_messages desc ctx tr) "spec"
     end
@@ -454,13 +457,15 @@ Definition pc_of (p : prog) (f : failure) (j off : nat) : nat :=
 
 Definition depth (p : prog) (f : failure) (j : nat) : nat := j - i_base (info_of p f j) + 1.
 
-Definition stale_ops (p : prog) (f : failure) (j : nat) : list op :=
+(* `extra` = number of further activations of body j below this one (recursion) *)
+Definition stale_ops_at (p : prog) (f : failure) (j extra : nat) : list op :=
   let c := content_of p f j in
   match b_stale (nth_body p j) with
   | 0 => []
-  | 1 => [OThrow (pc_of p f j (c_stale c)); OUnwind (depth p f j) true (pc_of p f j (c_stale_catch c))]
-  | _ => [OFail (pc_of p f j (c_stale c)); OUnwind (depth p f j) true (pc_of p f j (c_stale_catch c))]
+  | 1 => [OThrow (pc_of p f j (c_stale c)); OUnwind (depth p f j + extra) true (pc_of p f j (c_stale_catch c))]
+  | _ => [OFail (pc_of p f j (c_stale c)); OUnwind (depth p f j + extra) true (pc_of p f j (c_stale_catch c))]
   end.
+Definition stale_ops (p : prog) (f : failure) (j : nat) : list op := stale_ops_at p f j 0.
 
 Definition enter_op (p : prog) (f : failure) (j : nat) : op :=      (* body j enters body j+1 *)
   let pc := pc_of p f j (c_action (content_of p f j)) in
@@ -482,8 +487,8 @@ Definition prep_ops (p : prog) (f : failure) (n : nat) : list op :=
 Definition fail_ops (p : prog) (f : failure) (n : nat) : list op :=
   let pc := pc_of p f n (c_action (content_of p f n)) in
   if Nat.eqb (p_fail p) OVERFLOW then
-    flat_map (fun _ => stale_ops p f n +++ [OCall pc (fd_of p f n)]) (seq 0 (FRAMES_MAX_nat - depth p f n))
-    +++ stale_ops p f n +++ [OFail pc]
+    flat_map (fun k => stale_ops_at p f n k +++ [OCall pc (fd_of p f n)]) (seq 0 (FRAMES_MAX_nat - depth p f n))
+    +++ stale_ops_at p f n (FRAMES_MAX_nat - depth p f n) +++ [OFail pc]
   else stale_ops p f n +++ prep_ops p f n +++ [if f_by_throw f then OThrow pc else OFail pc].
 
 (* the handlers of the running fiber, innermost first, until one catches *)
@@ -567,6 +572,8 @@ Definition prog_of_wire (s : string) : prog :=
   end.
 
 Definition render_w (s : string) : string := render (prog_of_wire s).
+Definition all_w (s : string) : string :=
+  let p := prog_of_wire s in render p ++ "#" ++ eval_spec p ++ "#" ++ eval_mech p.
 Definition eval_spec_w (s : string) : string := eval_spec (prog_of_wire s).
 Definition eval_mech_w (s : string) : string := eval_mech (prog_of_wire s).
 
